@@ -33,6 +33,7 @@ THEOREMS = [
     "C11.prefix_deleter_breaks_two_slots",
     # shared lemmas the above rest on (also re-exported for C02 / C20, BinaryNode part)
     "BinStore.setParent_rej_id", "BinStore.setChildren_rej_id", "BinStore.step_rej_id",
+    "BinStore.setChildren_rej_id_any", "BinStore.step_rej_id_any", "BinStore.assertions_off_same",
     "BinStore.anc_complete", "BinStore.acyc_reparent",
 ]
 PROOF_IMPORTS = ["BigtreeProofs.Properties.C11"]
@@ -276,7 +277,15 @@ def impl_history(data, assertions=None) -> str:
 
 
 def impl(case):
-    return impl_history(case.data)
+    out = impl_history(case.data)
+    # measured input distribution: outcome of the last call (the transition under test in the exhaustive part)
+    # and the share of refused calls in the history
+    parts = out.split(" ; ")
+    heads = [p.split(" ", 1)[0] for p in parts if p != "-"]
+    if heads:
+        rej = sum(1 for h in heads if h == "rej")
+        case.tags = tuple(case.tags) + ("last=" + heads[-1], "rej-share=%d%%" % (10 * round(10 * rej / len(heads))),)
+    return out
 
 
 # ------------------------------------------------------------------ oracles (model-free)
@@ -747,6 +756,8 @@ def gen_c02(rng, tier):
     assignment (parent/children/left/right, every argument tuple) with every fault + random histories with
     ~50 % faults; handler line format = C11's"""
     cases = [mk_case(d, ("binary", "corpus")) for d in corpus()]
+    cases += [mk_case(d, ("binary", "alias-probe")) for d in gen_alias_probes()
+              if any(len(o) == 4 and o[3] != "none" for o in d["ops"])]
     for d, tags in gen_exhaustive(3 if tier == "quick" else 4):
         if d["ops"][-1][0] in ("P", "C", "T", "L", "R"):
             cases.append(mk_case(d, ("binary",) + tuple(tags)))
@@ -819,7 +830,7 @@ def selftest():
     old = _CLS["c"]
     try:
         _CLS["c"] = PreFix
-        d = corpus()[0]
+        d = {"cls": "binary", "n": 4, "asrt": 1, "ops": [["C", 0, [1, 2], "none"], ["D", 0], ["P", 3, 0, "none"]]}
         m1 = oracle_history(d)
         assert m1 and "slots" in m1[0], m1
     finally:
